@@ -108,7 +108,62 @@ pub static C18: CheckSpec = CheckSpec {
     assumptions: &["quota periods are chosen so that period_ns is divisible by the burst: the limiter's integer replenish interval is then exact and 'burst + rate x window' is the exact bound", "ban expiry enforcement (unban) belongs to the Handler task and is not part of this world; bans are only required to last at least ban_duration"],
 };
 
-pub static ALL: &[&CheckSpec] = &[&C07, &C08, &C09, &C10, &C16, &C18];
+const REAL_HANDLER: &[&str] = &["handler::Handler (send_request, handle_challenge, handle_auth_message, handle_message, handle_response, timeouts, pending requests, replay on re-key)", "handler::session::Session + handler::crypto (real secp256k1 ECDH, HKDF, AES-GCM)", "handler::active_requests::ActiveRequests (delay_map timers)", "lru_time_cache::LruTimeCache (session cache)", "socket::recv::RecvHandler::handle_inbound (filter, exemption lookup, Packet::decode)", "socket::send: Packet::encode", "rpc codec"];
+const STUB_HANDLER: &[&str] = &["UDP sockets and the two socket I/O select loops (replaced by equivalent loops over the harness's virtual network)", "OS clock (interposed; follows tokio's paused clock)", "OS entropy (interposed getrandom: seeded PRNG)", "the service layer above the handler (the harness plays each handler's application: answers WhoAreYou queries and requests)"];
+
+fn c04_run(ctx: &mut Ctx) {
+    worlds::h_traffic::run(ctx, worlds::h_traffic::Opts { c04: true, c13: false, c19: false, malicious: false });
+}
+fn c19_run(ctx: &mut Ctx) {
+    worlds::h_traffic::run(ctx, worlds::h_traffic::Opts { c04: false, c13: false, c19: true, malicious: true });
+}
+fn c13_run(ctx: &mut Ctx) {
+    worlds::h_traffic::run(ctx, worlds::h_traffic::Opts { c04: false, c13: true, c19: false, malicious: true });
+}
+
+pub static C04: CheckSpec = CheckSpec {
+    id: "C04",
+    level: "exploration",
+    scenarios: &[Scenario { name: "handler-traffic", weight: 1, run: c04_run }],
+    runs_quick: 2_500,
+    runs_thorough: 150_000,
+    cap_quick_s: 75,
+    cap_thorough_s: 1200,
+    rule: "one run = 2-4 real handlers on the virtual network, 1-12 concurrent requests (PING / FINDNODE with 1-3 response packets / TALK, contacts with and without record) submitted at chosen times, under a per-run fault profile (drop, duplicate, delay/reorder, partition, slow WHOAREYOU answers and responses, silent application, peer restart, injected undecryptable packet = session loss, clock jump); at a chosen instant all faults stop and the run continues for the liveness bound; non-trivial = at least one fault fired; distinct = distinct hash of the abstract event log (datagram kinds, faults, handler outputs, virtual times)",
+    components_real: REAL_HANDLER,
+    components_stub: STUB_HANDLER,
+    assumptions: &["liveness bound B = 4*(retries+1)*request_timeout + 2 s + 3 s (max application delay), calibrated on the fault-free configuration (1 run in 6)", "a request submitted at a handler that is then restarted is lost with it (no durable state) and is exempt from the liveness clause"],
+};
+
+pub static C19: CheckSpec = CheckSpec {
+    id: "C19",
+    level: "exploration",
+    scenarios: &[Scenario { name: "handler-traffic", weight: 1, run: c19_run }],
+    runs_quick: 2_500,
+    runs_thorough: 150_000,
+    cap_quick_s: 75,
+    cap_thorough_s: 1200,
+    rule: "same world and fault profiles as C04 plus forged WHOAREYOUs that force re-keying; every emitted Message/Handshake datagram is attributed to the session key (H6 key log) that decrypts it and (emitter, key, 12-byte nonce) must identify one byte string; all id-nonces of a node's WHOAREYOUs must differ; non-trivial = at least one fault fired; distinct = distinct event-log hash",
+    components_real: REAL_HANDLER,
+    components_stub: STUB_HANDLER,
+    assumptions: &["the session-key log (hook H6) reports every session object the handler creates"],
+};
+
+pub static C13: CheckSpec = CheckSpec {
+    id: "C13",
+    level: "exploration",
+    scenarios: &[Scenario { name: "handler-traffic", weight: 1, run: c13_run }],
+    runs_quick: 2_500,
+    runs_thorough: 150_000,
+    cap_quick_s: 75,
+    cap_thorough_s: 1200,
+    rule: "same world and fault profiles as C04 (packet filter on in half of the handlers) plus malicious peers (second WHOAREYOU, forged WHOAREYOU, random packets from unknown parties whose challenge is never answered); the shared exemption map is compared with the harness's ledger after every handler output (upper bound) and must be empty at quiescence; non-trivial = at least one fault fired; distinct = distinct event-log hash",
+    components_real: REAL_HANDLER,
+    components_stub: STUB_HANDLER,
+    assumptions: &["quiescence = horizon reached with no harness event pending, all requests terminal and every challenge older than request_timeout"],
+};
+
+pub static ALL: &[&CheckSpec] = &[&C04, &C07, &C08, &C09, &C10, &C13, &C16, &C18, &C19];
 
 pub fn lookup(id: &str) -> Option<&'static CheckSpec> {
     ALL.iter().copied().find(|c| c.id.eq_ignore_ascii_case(id))
